@@ -34,6 +34,7 @@ WHAT = {
  'constructor-filled optional field': ("C08", "attrs model a, t=Factory(takes_self=True), z=7: load({'a': 1, 'z': 5}) -> M(a=1, t=5, z=7); with t present -> TypeError (takes_self_factory, all presence patterns)"),
  'Literal loader leaked TypeError': ("C04", "Literal with more than 4 cases (set branch): unhashable datum [0.0] -> TypeError escaped (literal_big_int kind=1)"),
  'shadowed an inner coercer': ("C19", "converter for A(inner: A') -> B(inner: B') where the inner classes are also named A and B: generated coerce_A_to_B shadowed the inner coercer -> AttributeError (names_same_name_nested)"),
+ 'generic type aliases': ("C16", "type RevMap[K, V] = dict[V, K]: RevMap[int, str] loaded as dict[int, str] ({'a': 1} rejected, {1: 'a'} accepted) (alias_RevMap_int_str)"),
 }
 WHAT.update(json.load(open('/verif/tools/fixed_extra.json')) if __import__('os').path.exists('/verif/tools/fixed_extra.json') else {})
 log = subprocess.run(["git", "-C", "/repo", "log", "--format=%h %s"], capture_output=True, text=True).stdout.splitlines()
